@@ -720,7 +720,12 @@ impl IsoTime {
             nanosecond as u16,
         );
 
-        (days as i32, time)
+        // NOTE: A day carry that does not fit an `i32` can never be balanced into the
+        // valid range. Saturate instead of wrapping, so that the callers' range
+        // checks reject the result instead of seeing a wrapped, plausible value.
+        let days = i32::try_from(days).unwrap_or(if days < 0 { i32::MIN } else { i32::MAX });
+
+        (days, time)
     }
 
     /// Difference this `IsoTime` against another and returning a `TimeDuration`.
